@@ -110,8 +110,22 @@ def run_coqc(path, timeout=600, extra=()):
         return 124, (e.stdout or ''), 'TIMEOUT after %ds' % timeout, time.time() - t0
 
 
-def make_library(timeout=3000):
-    """Build the hand-written library (full .vo) from coq/parts/*.files.
+def part_files(prop):
+    out = []
+    for name in ('00-shared', prop):
+        path = os.path.join(COQ, 'parts', name + '.files')
+        if os.path.exists(path):
+            for line in open(path):
+                line = line.strip()
+                if line and not line.startswith('#'):
+                    out.append(line)
+    return out
+
+
+def make_library(timeout=3000, prop=None):
+    """Build the hand-written library (full .vo) from coq/parts/*.files: everything when
+    prop is None (setup), else the shared part and that property's part only, so that one
+    property's check never depends on another property's files.
     No-op when up to date. Serialised by a file lock: several checks may run at once."""
     import fcntl
     os.makedirs(BUILD, exist_ok=True)
@@ -121,7 +135,10 @@ def make_library(timeout=3000):
                        check=True, stdout=subprocess.DEVNULL)
         subprocess.run(['coq_makefile', '-f', '_CoqProject', '-o', 'Makefile'],
                        cwd=COQ, check=True, stdout=subprocess.DEVNULL, stderr=subprocess.DEVNULL)
-        p = subprocess.run(['make', '-j%d' % NPROC], cwd=COQ, stdout=subprocess.PIPE,
+        targets = []
+        if prop is not None:
+            targets = [f[:-2] + '.vo' for f in part_files(prop)]
+        p = subprocess.run(['make', '-j%d' % NPROC] + targets, cwd=COQ, stdout=subprocess.PIPE,
                            stderr=subprocess.STDOUT, timeout=timeout, text=True)
         return p.returncode, p.stdout
 
@@ -216,6 +233,9 @@ class Ctx(object):
         os.makedirs(self.dir, exist_ok=True)
         os.makedirs(os.path.join(BUILD, 'replay'), exist_ok=True)
         os.makedirs(EVID, exist_ok=True)
+        for old in os.listdir(os.path.join(BUILD, 'replay')):     # replays of earlier runs
+            if old.startswith(prop + '_'):
+                os.remove(os.path.join(BUILD, 'replay', old))
         self.findings = load_findings()
         self.violations = []        # (replay path, suffix)
         self.known_hits = {}        # finding id -> count
@@ -253,14 +273,18 @@ class Ctx(object):
 
     # -- stage P ----------------------------------------------------------
     def ensure_library(self):
-        rc, out = make_library()
+        rc, out = make_library(prop=self.prop)
         if rc != 0:
             self.log('library build FAILED')
             self.log(out[-3000:])
             self.obligations.append(('library-build', False, out[-2000:]))
             self.broken.append(('proof', 'library-build', out[-2000:]))
             return False
-        bad = grep_forbidden(all_v_files())
+        mine = [os.path.join(COQ, f) for f in part_files(self.prop)]
+        props = os.path.join(COQ, 'theories', 'Props', self.prop + '.v')
+        if os.path.exists(props):
+            mine.append(props)
+        bad = grep_forbidden(mine)
         if bad:
             self.obligations.append(('no-forbidden-constructs', False, '\n'.join(bad)))
             self.broken.append(('proof', 'forbidden-constructs', '\n'.join(bad)))
